@@ -125,6 +125,7 @@ func (g *Gen) Next(t *rapid.T) *Op {
 	}
 	structural := !locked || g.P.OpenQ // under lock structural ops are generated as rejected attempts
 	room := len(alive) < g.P.MaxEnts
+	add("regLocked", locked)
 	add("new", structural && room)
 	add("newBatch", structural && room)
 	add("copy", structural && room && len(alive) > 0)
@@ -262,7 +263,7 @@ func (g *Gen) Next(t *rapid.T) *Op {
 		op = g.genBatch(t, k)
 	case "filterNew":
 		op = g.genFilter(t)
-		if op != nil && op.FS != nil && op.FS.Inst >= 0 && FilterInsts[op.FS.Inst].Arity >= 3 && !locked && len(m.AliveList()) < g.P.MaxEnts-3 && len(g.queue) == 0 && rapid.Bool().Draw(t, "populateFilter") {
+		if op != nil && op.FS != nil && op.FS.Inst >= 0 && FilterInsts[op.FS.Inst].Arity >= 3 && !locked && len(m.AliveList()) < g.P.MaxEnts-5 && len(g.queue) == 0 && rapid.Bool().Draw(t, "populateFilter") {
 			// a filter over many components rarely matches anything by chance: create two or three entities for it (same
 			// table; values differ), so that its typed query code runs over rows > 0
 			list := op.FS.List()
@@ -288,6 +289,35 @@ func (g *Gen) Next(t *rapid.T) *Op {
 			}
 			for i, n := 0, rapid.IntRange(2, 3).Draw(t, "populateN"); i < n; i++ {
 				g.queue = append(g.queue, &Op{K: "new", P: PUnsafe, Comps: cl, Vals: g.vals(len(cl)), Rels: rels})
+			}
+			// ... and entities that have every required component plus one excluded one (the first and the last excluded
+			// component; any other component for an exclusive filter): they show a wrongly built exclusion mask
+			var extra []int
+			if op.FS.Exclusive {
+				for c := 0; c < comps.N; c++ {
+					if !seen[c] {
+						extra = append(extra, c)
+					}
+				}
+				if len(extra) > 0 {
+					extra = []int{extra[rapid.IntRange(0, len(extra)-1).Draw(t, "populateExtra")]}
+				}
+			} else if wl := op.FS.Without; len(wl) > 0 {
+				extra = []int{wl[0]}
+				if len(wl) > 1 {
+					extra = append(extra, wl[len(wl)-1])
+				}
+			}
+			for _, x := range extra {
+				if seen[x] {
+					continue
+				}
+				l2 := append(append([]int{}, cl...), x)
+				r2 := append([]RelSpec{}, rels...)
+				if comps.All[x].Relation {
+					r2 = append(r2, RelSpec{C: x, T: g.pickTarget(t), S: 2})
+				}
+				g.queue = append(g.queue, &Op{K: "new", P: PUnsafe, Comps: l2, Vals: g.vals(len(l2)), Rels: r2})
 			}
 		}
 	case "filterReg":
@@ -324,6 +354,11 @@ func (g *Gen) Next(t *rapid.T) *Op {
 		op = &Op{K: "loadSaved"}
 	case "batchCall":
 		op = g.genBatchCall(t)
+	case "regLocked":
+		op = &Op{K: "regLocked", E: -1, Sub: "register-locked"}
+		if un := listOf(0xffff &^ m.Reg); len(un) > 0 && m.Reg != 0 && rapid.Bool().Draw(t, "universeType") {
+			op.E = rapid.SampledFrom(un).Draw(t, "unregistered")
+		}
 	case "register":
 		op = &Op{K: "register"}
 	case "gc":
@@ -1658,6 +1693,21 @@ func (g *Gen) genRelScenario(t *rapid.T) *Op {
 			{C: ra, T: rapid.SampledFrom(tg).Draw(t, "ta"), S: 2}, {C: rb, T: rapid.SampledFrom(tg).Draw(t, "tb"), S: 2}}}
 		q = append(q, op)
 	}
+	fixed := -1
+	if len(m.Filters) < 6 && rapid.Bool().Draw(t, "relScenarioFixedFilter") {
+		// a second filter with a permanent target for one of the two relations, created and registered only now that
+		// several tables of the archetype exist (the initial fill of the cache entry), and queried with and without a
+		// target for the other relation
+		fixed = len(m.Filters) + 1
+		ft := rapid.SampledFrom(tg[:2]).Draw(t, "fixedTarget")
+		q = append(q, &Op{K: "filterNew", FS: &FilterSpec{Inst: 0, With: append(append([]int{}, base...), ra, rb), Rels: []RelSpec{{C: ra, T: ft, S: 2}}}})
+		if rapid.IntRange(0, 3).Draw(t, "relScenarioFixedCached") != 0 {
+			q = append(q, &Op{K: "filterReg", F: fixed, Mode: 1})
+		}
+		q = append(q, &Op{K: "query", F: fixed})
+		q = append(q, &Op{K: "query", F: fixed, QRels: []RelSpec{{C: rb, T: rapid.SampledFrom(tg[:2]).Draw(t, "queryTarget"), S: 2}}})
+		g.It.count("two-relation-archetype-filter-with-permanent-target")
+	}
 	b := &Op{K: "setRelBatch", F: -1, P: PMap, M: inst, Fn: rapid.Bool().Draw(t, "fn"), Rels: []RelSpec{
 		{C: ra, T: rapid.SampledFrom(tg).Draw(t, "newTa"), S: rapid.IntRange(0, 2).Draw(t, "relStyle")},
 		{C: rb, T: rapid.SampledFrom(tg).Draw(t, "newTb"), S: rapid.IntRange(0, 2).Draw(t, "relStyle")}}}
@@ -1665,6 +1715,9 @@ func (g *Gen) genRelScenario(t *rapid.T) *Op {
 		b.Rels[0], b.Rels[1] = b.Rels[1], b.Rels[0]
 	}
 	q = append(q, b)
+	if fixed >= 0 {
+		q = append(q, &Op{K: "query", F: fixed})
+	}
 	g.queue = q[1:]
 	return q[0]
 }
